@@ -23,6 +23,7 @@ SRC=/tmp/wt/$P/MUTANT$I
 [ "$ROUND" = r13 ] && SRC=/tmp/wt13out/$P/MUTANT$I
 [ "$ROUND" = r14 ] && SRC=/tmp/wt14out/$P/MUTANT$I
 [ "$ROUND" = r15 ] && SRC=/tmp/wt15out/$P/MUTANT$I
+[ "$ROUND" = r16 ] && SRC=/tmp/wt16out/$P/MUTANT$I
 DST=$V/seeded/$P-${ROUND}m$I
 if [ -d "$SRC" ]; then mkdir -p $DST; cp $SRC/patch.diff $SRC/demo_test.go $SRC/meta.json $DST/ 2>/dev/null; fi
 [ -f $DST/patch.diff ] || { echo "no patch for $P m$I"; exit 2; }
